@@ -37,7 +37,7 @@ func (S) Level() string { return "fault_enumeration" }
 
 func (S) Info() scen.Info {
 	return scen.Info{
-		Rule: "unit = seeded (workload of <=6 store operations over 1-4 keys, task schedule); per unit: 1 fault-free run recording the fs-call trace, then one run per crash point (before every mutating fs call, after the last call, inside every write at prefix 0/1/mid/len-1), one run per (fs call, error variant), and seeded error pairs. " +
+		Rule: "unit = seeded (workload of <=6 store operations over 1-4 keys, task schedule); per unit: 1 fault-free run recording the fs-call trace, then one run per crash point (before every mutating fs call, after the last call, inside every write at prefix 0/1/mid/len-1), one run per (fs call, error variant), seeded error pairs, and seeded (error at an earlier call, crash at a later one) pairs. " +
 			"distinct_nontrivial counts distinct hash(trace shape, fault mode, fault position+variant, directory state found at restart) over runs in which the crash or error actually fired.",
 		DistinctSet: "faulted_state",
 		Assumptions: []string{
@@ -303,7 +303,7 @@ func (S) RunTape(t *sim.Tape, st *sim.Stats, keepLog bool) *sim.Outcome {
 	}
 
 	// ---- fault plan (enumeration dimensions; forced by the enumerator) ----
-	mode := t.Choice(4, "fault.mode") // 0 none, 1 crash, 2 error, 3 two errors
+	mode := t.Choice(5, "fault.mode") // 0 none, 1 crash, 2 error, 3 two errors, 4 an error and later a crash
 	at := t.Choice(160, "fault.at")
 	variant := t.Choice(6, "fault.variant") // crash: 0 = before call, 1..4 = inside write at prefix 0/1/mid/len-1
 	at2 := t.Choice(160, "fault.at2")
@@ -318,6 +318,13 @@ func (S) RunTape(t *sim.Tape, st *sim.Stats, keepLog bool) *sim.Outcome {
 		d.ErrAt = map[int]int{at: variant}
 	case 3:
 		d.ErrAt = map[int]int{at: variant, at2: variant2}
+	case 4:
+		// the process meets an error, carries on (error handling, clean-up), and dies later
+		d.ErrAt = map[int]int{at2: variant2}
+		d.CrashAt = at
+		if variant > 0 && variant <= 4 {
+			d.CrashPrefixSel = variant
+		}
 	}
 	w.cfg = fmt.Sprintf("esc=%d shard=%d split=%v collide=%d predir=%v keys=%d writers=%d readers=%d mode=%d at=%d var=%d", esc, shard, d.SplitWrites, d.RandCollide, predir, nkeys, nW, nR, mode, at, variant)
 	s.Log.Add("CFG " + w.cfg)
@@ -363,7 +370,7 @@ func (S) RunTape(t *sim.Tape, st *sim.Stats, keepLog bool) *sim.Outcome {
 	phase1Calls := d.NCalls()
 	trace := append([]simos.Call(nil), d.Trace...)
 	fired := d.Dead || len(d.Faults) > 0
-	if mode == 1 && !d.Dead {
+	if (mode == 1 || mode == 4) && !d.Dead {
 		// the crash point lies beyond the trace: the process dies after its last call
 		d.Dead = true
 	}
@@ -719,6 +726,14 @@ func (sc S) Unit(u *scen.Unit) {
 	pairs := 4
 	if u.Tier == "thorough" {
 		pairs = 12
+	}
+	// an error at an earlier call, then a crash at a later one (seeded pairs)
+	for k := 0; k < pairs*2 && n > 2; k++ {
+		x := int(sim.SeedFor(int64(u.Seed), "ec.err", k) % uint64(n-1))
+		y := x + 1 + int(sim.SeedFor(int64(u.Seed), "ec.crash", k)%uint64(n-x))
+		u.Exec(map[string]int{"fault.mode": 4, "fault.at": y, "fault.at2": x,
+			"fault.variant": int(sim.SeedFor(int64(u.Seed), "ec.v", k) % 5), "fault.variant2": int(sim.SeedFor(int64(u.Seed), "ec.v2", k) % 6)})
+		u.St.Inc("enum.error_then_crash")
 	}
 	for k := 0; k < pairs && n > 1; k++ {
 		x := int(sim.SeedFor(int64(u.Seed), "pair", k) % uint64(n))
